@@ -30,16 +30,16 @@ PROPS["C12"] = {
         {"pkg": "input", "hdir": "input", "specs": [
             _c12("tcp/plain/L<=4,zero-reads<=3", "VerifC12Plain", {"L": "4", "zeros": "3"}, tier="thorough"),
             _c12("tcp/conn/L<=4,zero-reads<=1", "VerifC12Conn", {"L": "4", "zeros": "1"}, tier="thorough"),
-        ]},
+        ], "opts": {"thorough": {"budget_s": 6000}}},
         {"pkg": "input", "hdir": "input", "specs": [
             _c12("tcp/plain/L<=5,zero-reads<=1", "VerifC12Plain", {"L": "5", "zeros": "1"}, tier="thorough"),
-        ]},
+        ], "opts": {"thorough": {"budget_s": 6000}}},
         {"pkg": "input", "hdir": "input", "specs": [
             _c12("tcp/plain/L<=6", "VerifC12Plain", {"L": "6", "zeros": "0"}, tier="thorough"),
-        ]},
+        ], "opts": {"thorough": {"budget_s": 6000}}},
         {"pkg": "input", "hdir": "input", "specs": [
             _c12("tcp/plain/two-cuts/L<=6", "VerifC12Cuts", {"L": "6"}, tier="thorough"),
-        ]},
+        ], "opts": {"thorough": {"budget_s": 6000}}},
         {"pkg": "input", "hdir": "input", "specs": [
             _c12("udp/L<=6", "VerifC12UDP", {"L": "6"}, tier="thorough"),
             _c12("amqp/L<=6", "VerifC12AMQP", {"L": "6"}, tier="thorough"),
